@@ -26,6 +26,8 @@ def term(t):
 
 def cond(c):
     k = c["c"]
+    if k == "shared":
+        return f"S{c['i']}<{cond(c['ref'])}>"
     if k == "cmp":
         return f"{term(c['l'])} {c['op']} {term(c['r'])}"
     if k == "in":
